@@ -119,6 +119,9 @@ var absentKeys = []string{"zz", "g.zz", "nope"}
 var emptyKeys = []string{"em", "el"}
 
 var litGen = rapid.StringMatching(`[a-z][a-z0-9._/-]{0,4}`)
+
+// cfgLitGen: configured texts may contain what would be argument syntax in a tag (a value is data, never tag text)
+var cfgLitGen = rapid.OneOf(litGen, litGen, rapid.SampledFrom([]string{"a, b", "k=v", "x,required=false", "p q"}))
 var defGen = rapid.OneOf(rapid.StringMatching(`[a-z][a-z0-9._-]{0,4}`), rapid.SampledFrom([]string{"", "d", "http://h.x:80", "x-1"}))
 
 func genPlaceholder(t *rapid.T, depth int, allowAbsent bool) string {
@@ -173,7 +176,7 @@ func genConfig(t *rapid.T, allowCycles bool) (map[string]any, bool) {
 		case 0:
 			cfg[k] = rapid.IntRange(0, 99).Draw(t, "ival")
 		case 1, 2:
-			cfg[k] = litGen.Draw(t, "sval")
+			cfg[k] = cfgLitGen.Draw(t, "sval")
 		case 3:
 			// absent
 		default:
@@ -185,7 +188,7 @@ func genConfig(t *rapid.T, allowCycles bool) (map[string]any, bool) {
 				pool = order[i+1:]
 			}
 			if len(pool) == 0 {
-				cfg[k] = litGen.Draw(t, "sval2")
+				cfg[k] = cfgLitGen.Draw(t, "sval2")
 				continue
 			}
 			var sb strings.Builder
@@ -283,7 +286,11 @@ func propValue(t *rapid.T) {
 		text = "x" + text // a leading letter keeps the later literal parsing out of the picture (C17's subject)
 		r := &ref{cfg: flat}
 		want, rerr := r.resolve(text, map[string]bool{})
-		obj := structWith(reflect.TypeOf(""), "value", text)
+		tagText := text
+		if rapid.IntRange(0, 3).Draw(t, "optional") == 0 {
+			tagText += ",required=false" // an optional property resolves exactly the same way
+		}
+		obj := structWith(reflect.TypeOf(""), "value", tagText)
 		budget := 100*r.steps + 1000
 		out, cb := runWith(flat, budget, obj.Interface())
 		desc := fmt.Sprintf("value:%q cfg{%s}", text, cfgString(flat))
